@@ -4,6 +4,7 @@ Every lemma is a statement about the provenance of every bit of a result for *al
 symbolic operands; small index arguments (position, run length, nibble) are partitioned exhaustively.
 The specification side is written here from the string semantics (lane maps), never from the code.
 """
+import re
 from . import bv
 from .bv import Int, ZERO, ONE, TOP, var, t_not, t_xor, t_or, t_and
 from .absint import (Adt, Arr, Cell, Diverge, Harness, Interp, Opaque, Ref, Tup, Undecided, Unsupported,
@@ -641,6 +642,10 @@ def lmer_lemmas(F, rep, which=None, ktypes=None):
         lt = LmerT(F, tystr)
         N, ML = lt.N, lt.max_len
         tag = "Lmer%d" % N
+        if N > 3 and rep.tier != "thorough":
+            # quick tier: capacities 4-6 (lengths >= 128 need the whole length byte) get the constructor / length lemmas only
+            def want(x, which=which):
+                return x == "new" and (which is None or x in which)
 
         if want("new"):
             def f_max():
@@ -931,7 +936,7 @@ def first_inst(F, prefix):
     return ks[0]
 
 
-def dnastring_lemmas(F, rep, which=None, maxn=70, ktypes=None):
+def dnastring_lemmas(F, rep, which=None, maxn=70, ktypes=None, kmer_positions=None):
     from .models import IterV
 
     def want(x):
@@ -1075,7 +1080,7 @@ def dnastring_lemmas(F, rep, which=None, maxn=70, ktypes=None):
             except Exception:
                 continue
             K = kt.K
-            for pos in range(0, 70):
+            for pos in (range(0, 70) if kmer_positions is None else kmer_positions(K)):
                 def f(pos=pos, kt=kt, K=K, kty=kty):
                     key = "<dna_string::DnaString as Vmer>::get_kmer::<%s>" % kty
                     r, _ = run_inst(F, key, [Ref(Cell(dt.sym("s", nbases), "self")), usize(pos)])
@@ -1112,3 +1117,581 @@ def expect_popsum(rep, rule, key, got, spec_terms, desc):
     else:
         rep.violated(rule, key, "%s: counted terms differ (extra %s, missing %s)" % (desc, [x for x in a if x not in b][:2], [x for x in b if x not in a][:2]),
                      witness={"kind": "bit", "n_got": len(a), "n_spec": len(b)})
+
+
+# ----------------------------------------------------------------------------------------------------------------------
+# DnaString: text / ASCII renderings, iteration and packed-byte push (C14, C16 "rendering back")
+# The per-byte tables bits_to_ascii / bits_to_base are decided by C16.1 (byte_tables); here they are intercepted as
+# uninterpreted functions of their argument so that what is decided is *which* base every output position renders.
+class RenderOracles:
+    """mixin for a WriterOracles-like harness: bits_to_ascii / bits_to_base return a value tagged with the exact
+    provenance of their argument bits"""
+    pass
+
+
+def _render_tag(arg):
+    if not isinstance(arg, Int):
+        return None
+    bits = list(arg.getbits())
+    if any(b is TOP for b in bits):
+        return None
+    if any(b != ZERO for b in bits[2:]):
+        return None
+    return "r:%s|%s" % (bv.t_str(bits[0]), bv.t_str(bits[1]))
+
+
+def render_harness():
+    from .dt_export import WriterOracles, FmtArg, FmtArgs
+    from .absint import tags_of
+
+    class H(WriterOracles):
+        def __init__(self):
+            WriterOracles.__init__(self)
+            self.bad = []
+
+        def on_call(self, it, fn, args, dest_ty, term, caller):
+            path = fn.get("path", "")
+            if path in ("bits_to_base", "bits_to_ascii"):
+                t = _render_tag(args[0])
+                if t is None:
+                    self.bad.append("%s applied to %r" % (path, args[0]))
+                    t = "r:?"
+                w = 32 if path == "bits_to_base" else 8
+                return Int(w, False, bits=[TOP] * w, tags=frozenset({t}), kind="char" if path == "bits_to_base" else "int")
+            name = path.split("::")[-1]
+            if path.startswith("core::fmt::Formatter") or path.startswith("std::fmt::Formatter"):
+                if name == "write_fmt" and len(args) == 2 and isinstance(args[1], FmtArgs):
+                    self.emit(it, args[1])
+                    return Adt("std::result::Result", 0, [Tup([])])
+                if name in ("write_str", "write_char", "pad") and len(args) == 2:
+                    self.out.append(self.render_arg(it, FmtArg("display", args[1])))
+                    return Adt("std::result::Result", 0, [Tup([])])
+            r = WriterOracles.on_call(self, it, fn, args, dest_ty, term, caller)
+            if r is NotImplemented and ("fmt::" in path or "fmt::" in (fn.get("trait") or "")) and not path.startswith("dna_string::"):
+                self.bad.append("formatting call %s is not captured" % path)
+            return r
+
+        def render_arg(self, it, a):
+            v = a.val
+            while isinstance(v, Ref):
+                v = it.read(v.cell, v.path)
+            if isinstance(v, Int):
+                t = [x for x in tags_of(v) if x.startswith("r:")]
+                if t:
+                    return "<%s>" % t[0]
+            if isinstance(v, VecV) or (isinstance(v, Adt) and v.name.endswith("String")):
+                el = v.elems if isinstance(v, VecV) else (v.fields[0].elems if v.fields and isinstance(v.fields[0], VecV) else None)
+                if el is not None:
+                    out = ""
+                    for e in el:
+                        t = [x for x in tags_of(e) if x.startswith("r:")] if isinstance(e, Int) else []
+                        out += "<%s>" % t[0] if t else "\u0001<untagged %r>" % (e,)
+                    return out
+            return WriterOracles.render_arg(self, it, a)
+
+    return H
+
+
+def dnastring_render_lemmas(F, rep, rule="L-dna-text", lengths=(0, 1, 2, 31, 32, 33, 64, 65)):
+    from .dt_export import WriterOracles, FmtArg, FmtArgs
+    from .absint import tags_of
+
+    try:
+        dt = DnaT(F)
+    except Unsupported as e:
+        rep.violated(rule, "DnaString", str(e), witness={"kind": "anchor-missing"})
+        return
+
+    H = render_harness()
+
+    def want_tags(n):
+        return ["r:%s|%s" % (bv.t_str(var("s", 2 * i)), bv.t_str(var("s", 2 * i + 1))) for i in range(n)]
+
+    def vec_tags(r):
+        if not isinstance(r, VecV):
+            return None
+        out = []
+        for e in r.elems:
+            t = [x for x in tags_of(e) if x.startswith("r:")] if isinstance(e, Int) else []
+            out.append(t[0] if t else None)
+        return out
+
+    for n in lengths:
+        def f_ascii(n=n):
+            h = H()
+            r, _ = run_inst(F, "dna_string::DnaString::to_ascii_vec", [Ref(Cell(dt.sym("s", n), "self"))], h)
+            rep.evaluations += 1
+            got = vec_tags(r)
+            if h.bad or got is None:
+                rep.inconclusive(rule, "to_ascii_vec/len=%d" % n, "to_ascii_vec: %s" % (h.bad[0] if h.bad else repr(r)))
+            elif got == want_tags(n):
+                rep.holds(rule, "to_ascii_vec/len=%d" % n, "to_ascii_vec() of a length-%d string is bits_to_ascii of base 0..%d in order" % (n, n))
+            else:
+                rep.violated(rule, "to_ascii_vec/len=%d" % n, "to_ascii_vec() of a length-%d string renders %s; specified: the ASCII letter of base i at position i for "
+                             "i = 0..%d" % (n, [g for g in got][:4], n), witness={"kind": "render", "got": got[:6], "want": want_tags(n)[:6]})
+        guarded(rep, rule, "to_ascii_vec/len=%d" % n, "to_ascii_vec", f_ascii)
+
+        for tr in ("Display", "Debug"):
+            def f_fmt(n=n, tr=tr):
+                h = H()
+                key = "<dna_string::DnaString as std::fmt::%s>::fmt" % tr
+                r, _ = run_inst(F, key, [Ref(Cell(dt.sym("s", n), "self")), Ref(Cell(Opaque("Formatter", {"fmt"}), "f"))], h)
+                rep.evaluations += 1
+                text = "".join(h.out)
+                want = "".join("<%s>" % t for t in want_tags(n))
+                ok_res = isinstance(r, Adt) and r.variant == 0
+                k = "%s/len=%d" % (tr, n)
+                if h.bad or "\u0001" in text:
+                    rep.inconclusive(rule, k, "%s::fmt: %s" % (tr, h.bad[0] if h.bad else text[:120]))
+                elif text == want and ok_res:
+                    rep.holds(rule, k, "%s of a length-%d string writes the letter of base 0..%d in order and nothing else" % (tr, n, n))
+                else:
+                    rep.violated(rule, k, "%s of a length-%d string writes %r (result %r); specified %r" % (tr, n, text[:80], r, want[:80]),
+                                 witness={"kind": "render", "got": text[:200], "want": want[:200]})
+            guarded(rep, rule, "%s/len=%d" % (tr, n), tr, f_fmt)
+
+    # ---- iteration: DnaStringIter yields base i at step i and ends (to_bytes = iter().collect() is in L-dna-render; here into_iter + len)
+    # ---- push_bytes: base j of the packed run is bits (2(j%4), 2(j%4)+1) of byte j/4
+    for n0 in (0, 1, 30, 31, 32, 33):
+        for m in (0, 1, 3, 4, 5, 8, 31, 32, 33, 36):
+            def f_pb(n0=n0, m=m):
+                nb = (m + 3) // 4 + 1
+                cell = Cell(dt.sym("s", n0), "self")
+                bytes_ = [Int(8, False, bits=[var("p", 8 * j + b) for b in range(8)]) for j in range(nb)]
+                run_inst(F, "dna_string::DnaString::push_bytes", [Ref(cell), Ref(Cell(Arr(bytes_), "bytes")), usize(m)])
+                n = n0 + m
+                ws = dt.words("s", n, n0)
+                for j in range(m):
+                    i = n0 + j
+                    w, hi, lo = i // 32, 63 - 2 * (i % 32), 62 - 2 * (i % 32)
+                    ws[w][hi], ws[w][lo] = var("p", 8 * (j // 4) + 2 * (j % 4) + 1), var("p", 8 * (j // 4) + 2 * (j % 4))
+                expect_dna(rep, rule, "push_bytes/len=%d/m=%d" % (n0, m), dt, cell.v, ws, n,
+                           "push_bytes of %d packed bases onto a length-%d string appends base j = bits 2(j%%4)..2(j%%4)+1 of byte j/4, in order" % (m, n0))
+            guarded(rep, rule, "push_bytes/len=%d/m=%d" % (n0, m), "push_bytes", f_pb)
+
+
+# ----------------------------------------------------------------------------------------------------------------------
+# DnaStringSlice: exact view lemmas on a symbolic backing string (C15): every conversion / rendering / comparison of a
+# view (start, length, is_rc) equals that of the substring (reverse-complemented when flagged)
+SLICE_T = "dna_string::DnaStringSlice"
+
+
+def view_base_bits(src, start, length, rc, i):
+    """(lo, hi) provenance of position i of the view"""
+    if not rc:
+        j = start + i
+        return var(src, 2 * j), var(src, 2 * j + 1)
+    j = start + length - 1 - i
+    return t_not(var(src, 2 * j)), t_not(var(src, 2 * j + 1))
+
+
+def slice_exact_lemmas(F, rep, rule="C15.1", nback=70, quick=True):
+    from .absint import tags_of
+    from .dt import Oracles, explore
+    try:
+        dt = DnaT(F)
+    except Unsupported as e:
+        rep.violated(rule, "DnaString", str(e), witness={"kind": "anchor-missing"})
+        return
+    flds = [f["name"] for f in F.adts.get(SLICE_T, {}).get("variants", [{}])[0].get("fields", [])] if hasattr(F, "adts") else []
+    order = flds if sorted(flds) == sorted(["dna_string", "start", "length", "is_rc"]) else ["dna_string", "start", "length", "is_rc"]
+
+    def mkview(back_cell, start, length, rc):
+        vals = {"dna_string": Ref(back_cell), "start": usize(start), "length": usize(length), "is_rc": Int(8, False, val=int(rc), kind="bool")}
+        return Adt(SLICE_T, 0, [vals[k] for k in order])
+
+    def body_of(suffix):
+        c = [b for k, b in F.fns.items() if k.startswith(SLICE_T) and k.endswith("::" + suffix)] + \
+            [b for k, b in F.fns.items() if k.startswith("<" + SLICE_T) and k.endswith(suffix)]
+        if not c:
+            raise KeyError(SLICE_T + "::" + suffix)
+        return c[0]
+
+    H = render_harness()
+    starts = (0, 1, 31, 32, 33) if quick else (0, 1, 2, 31, 32, 33, 63, 64)
+    lens = (0, 1, 3, 31, 32, 33) if quick else (0, 1, 2, 3, 31, 32, 33, 34)
+    views = [(st, ln, rc) for st in starts for ln in lens for rc in (False, True) if st + ln <= nback]
+
+    def want_tags(st, ln, rc):
+        out = []
+        for i in range(ln):
+            lo, hi = view_base_bits("s", st, ln, rc, i)
+            out.append("r:%s|%s" % (bv.t_str(lo), bv.t_str(hi)))
+        return out
+
+    def vtags(r):
+        el = r.elems if isinstance(r, VecV) else (r.fields[0].elems if isinstance(r, Adt) and r.fields and isinstance(r.fields[0], VecV) else None)
+        if el is None:
+            return None
+        out = []
+        for e in el:
+            t = [x for x in tags_of(e) if x.startswith("r:")] if isinstance(e, Int) else []
+            out.append(t[0] if t else None)
+        return out
+
+    for st, ln, rc in views:
+        vk = "start=%d/len=%d/rc=%d" % (st, ln, int(rc))
+
+        def f_owned():
+            it = Interp(F, False, Harness())
+            r = it.call_body(body_of("to_owned"), [Ref(Cell(mkview(Cell(dt.sym("s", nback), "back"), st, ln, rc), "self"))])
+            ws = dt.words("s", ln, 0)
+            for i in range(ln):
+                lo, hi = view_base_bits("s", st, ln, rc, i)
+                w, bh, bl = i // 32, 63 - 2 * (i % 32), 62 - 2 * (i % 32)
+                ws[w][bh], ws[w][bl] = hi, lo
+            expect_dna(rep, rule, "exact/to_owned/" + vk, dt, r, ws, ln,
+                       "to_owned() of the view (start %d, length %d, is_rc %s) is the canonical DnaString of the substring%s" % (st, ln, rc, " reverse-complemented" if rc else ""))
+        guarded(rep, rule, "exact/to_owned/" + vk, "to_owned", f_owned)
+
+        def f_bytes():
+            it = Interp(F, False, Harness())
+            r = it.call_body(body_of("bytes"), [Ref(Cell(mkview(Cell(dt.sym("s", nback), "back"), st, ln, rc), "self"))])
+            rep.evaluations += 1
+            want = [list(view_base_bits("s", st, ln, rc, i)) + [ZERO] * 6 for i in range(ln)]
+            if not isinstance(r, VecV) or any(not isinstance(e, Int) or any(b is TOP for b in e.getbits()) for e in r.elems):
+                rep.inconclusive(rule, "exact/bytes/" + vk, "bytes() returned %r" % (r,))
+            elif [list(e.getbits()) for e in r.elems] == want:
+                rep.holds(rule, "exact/bytes/" + vk, "bytes() lists the %d bases of the view in order" % ln)
+            else:
+                rep.violated(rule, "exact/bytes/" + vk, "bytes() of the view (start %d, length %d, is_rc %s) is %r" % (st, ln, rc, r), witness={"kind": "render"})
+        guarded(rep, rule, "exact/bytes/" + vk, "bytes", f_bytes)
+
+        for nm, kind in (("ascii", "vec"), ("to_dna_string", "vec"), ("std::fmt::Display>::fmt", "fmt"), ("std::fmt::Debug>::fmt", "fmt")):
+            short = nm.split("::")[-2].rstrip(">") if kind == "fmt" else nm
+            if kind == "fmt":
+                short = "Display" if "Display" in nm else "Debug"
+
+            def f_r(nm=nm, kind=kind, short=short):
+                h = H()
+                it = Interp(F, False, h)
+                args = [Ref(Cell(mkview(Cell(dt.sym("s", nback), "back"), st, ln, rc), "self"))]
+                if kind == "fmt":
+                    args.append(Ref(Cell(Opaque("Formatter", {"fmt"}), "f")))
+                r = it.call_body(body_of(nm), args)
+                rep.evaluations += 1
+                want = want_tags(st, ln, rc)
+                k = "exact/%s/%s" % (short, vk)
+                if kind == "vec":
+                    got = vtags(r)
+                    if h.bad or got is None or any(g is None for g in got):
+                        rep.inconclusive(rule, k, "%s: %s" % (short, h.bad[0] if h.bad else repr(r)))
+                    elif got == want:
+                        rep.holds(rule, k, "%s() renders the letter of view position 0..%d in order" % (short, ln))
+                    else:
+                        rep.violated(rule, k, "%s() of the view (start %d, length %d, is_rc %s) renders %s, specified %s" % (short, st, ln, rc, got[:4], want[:4]),
+                                     witness={"kind": "render", "got": got[:6], "want": want[:6]})
+                else:
+                    text = "".join(h.out)
+                    wtext = "".join("<%s>" % t for t in want)
+                    if h.bad or "\u0001" in text:
+                        rep.inconclusive(rule, k, "%s: %s" % (short, h.bad[0] if h.bad else text[:120]))
+                    elif text == wtext and isinstance(r, Adt) and r.variant == 0:
+                        rep.holds(rule, k, "%s writes the letter of view position 0..%d in order and nothing else" % (short, ln))
+                    else:
+                        rep.violated(rule, k, "%s of the view (start %d, length %d, is_rc %s) writes %r, specified %r" % (short, st, ln, rc, text[:80], wtext[:80]),
+                                     witness={"kind": "render", "got": text[:200], "want": wtext[:200]})
+            guarded(rep, rule, "exact/%s/%s" % (short, vk), short, f_r)
+
+    # ---- equality: exact table.  Operands over the same or different backing strings; every comparison of two base values is an oracle
+    # named by the provenance of both operands; the verdict must be `all positions equal`, and `true` may only be returned when every
+    # position whose two provenance terms are not identical has been compared (ANF terms are canonical: different terms differ somewhere)
+    class EqH(Oracles):
+        def unknown_compare(self, it, op, a, b):
+            if op not in ("Eq", "Ne"):
+                return None
+            ba, bb = list(a.getbits()), list(b.getbits())
+            if any(x is TOP for x in ba + bb):
+                return None
+            name = "eq(%s;%s)" % (",".join(bv.t_str(x) for x in ba[:2]), ",".join(bv.t_str(x) for x in bb[:2]))
+            rname = "eq(%s;%s)" % (",".join(bv.t_str(x) for x in bb[:2]), ",".join(bv.t_str(x) for x in ba[:2]))
+            if rname in self.memo:
+                name = rname
+            eq = self.choose(name, (True, False))
+            return eq if op == "Eq" else not eq
+
+    L = 3
+    eq_body = None
+    try:
+        eq_body = body_of("std::cmp::PartialEq>::eq")
+    except KeyError as e:
+        rep.violated(rule, "exact/eq", "anchor-missing: %s" % e, witness={"kind": "anchor-missing"})
+    scen = []
+    for same in (True, False):
+        for (sa, ra), (sb, rb) in (((2, False), (2, False)), ((2, False), (2, True)), ((2, True), (2, False)), ((2, True), (2, True)),
+                                   ((2, False), (7, False)), ((0, False), (32, True)), ((32, False), (32, True)), ((0, True), (0, False))):
+            for lb in (L, L + 1):
+                scen.append((same, sa, ra, sb, rb, L, lb))
+    rows = 0
+    problems, inc = [], []
+    for same, sa, ra, sb, rb, la, lb in scen if eq_body is not None else []:
+        srcb = "s" if same else "t"
+
+        def run(h):
+            it = Interp(F, False, h)
+            ca = Cell(dt.sym("s", nback), "backA")
+            cb = ca if same else Cell(dt.sym("t", nback), "backB")
+            return it.call_body(eq_body, [Ref(Cell(mkview(ca, sa, la, ra), "self")), Ref(Cell(mkview(cb, sb, lb, rb), "other"))])
+        for a, out, h in explore(lambda script: EqH(script), run):
+            rows += 1
+            rep.evaluations += 1
+            if isinstance(out, tuple) and out and out[0] in ("inconclusive", "diverge"):
+                (inc if out[0] == "inconclusive" else problems).append("eq %s: %s" % (out[0], out[1]))
+                continue
+            val = bool(out.val) if isinstance(out, Int) and out.is_conc() else None
+            desc = "self=(%s,start %d,len %d,rc %s) other=(%s,start %d,len %d,rc %s)" % ("s", sa, la, ra, srcb, sb, lb, rb)
+            if la != lb:
+                if val is not False:
+                    problems.append("eq returns %s for views of different lengths: %s" % (val, desc))
+                continue
+            status = []          # per position: True (identical terms or found equal), False (found different), None (never compared)
+            for i in range(la):
+                x, y = view_base_bits("s", sa, la, ra, i), view_base_bits(srcb, sb, lb, rb, i)
+                if x == y:
+                    status.append(True)
+                    continue
+                n1 = "eq(%s,%s;%s,%s)" % (bv.t_str(x[0]), bv.t_str(x[1]), bv.t_str(y[0]), bv.t_str(y[1]))
+                n2 = "eq(%s,%s;%s,%s)" % (bv.t_str(y[0]), bv.t_str(y[1]), bv.t_str(x[0]), bv.t_str(x[1]))
+                status.append(a.get(n1, a.get(n2)))
+            if val is True and any(s is not True for s in status):
+                p = [i for i, s in enumerate(status) if s is not True][0]
+                problems.append("eq returns true although view position %d %s: %s" % (p, "was found different" if status[p] is False else "was never compared (the two bases can differ)", desc))
+            elif val is False and all(s is True for s in status):
+                problems.append("eq returns false although every position was found equal: %s" % desc)
+            elif val is None:
+                inc.append("eq returned %r" % (out,))
+    if eq_body is not None:
+        if problems:
+            rep.violated(rule, "exact/eq", problems[0], site=F.site(eq_body, eq_body["line"]), witness={"kind": "row", "count": len(problems)})
+        elif inc:
+            rep.inconclusive(rule, "exact/eq", inc[0])
+        else:
+            rep.holds(rule, "exact/eq", "slice equality ⇔ equal length and equal bases at every view position, over same / different backing strings, "
+                      "equal / shifted intervals and every strand combination (%d rows)" % rows)
+
+
+_FMT_FAITHFUL = {}
+
+
+def slice_fmt_faithful(F, trait, lengths=(3, 255, 256, 300)):
+    """does `<DnaStringSlice as fmt::{trait}>::fmt` write exactly the letters of the view, for short and for long views?
+    returns (True, None) / (False, description of the first unfaithful case) / (None, why undecided)"""
+    key = (id(F), trait)
+    if key in _FMT_FAITHFUL:
+        return _FMT_FAITHFUL[key]
+    res = (True, None)
+    try:
+        dt = DnaT(F)
+        H = render_harness()
+        bodies = [b for k, b in F.fns.items() if k.startswith("<" + SLICE_T) and k.endswith("std::fmt::%s>::fmt" % trait)]
+        if not bodies:
+            raise Unsupported("no %s impl for DnaStringSlice" % trait)
+        nback = max(lengths) + 8
+        for ln in lengths:
+            h = H()
+            it = Interp(F, False, h)
+            view = Adt(SLICE_T, 0, [Ref(Cell(dt.sym("s", nback), "back")), usize(4), usize(ln), Int(8, False, val=0, kind="bool")])
+            it.call_body(bodies[0], [Ref(Cell(view, "self")), Ref(Cell(Opaque("Formatter", {"fmt"}), "f"))])
+            text = "".join(h.out)
+            want = ""
+            for i in range(ln):
+                lo, hi = view_base_bits("s", 4, ln, False, i)
+                want += "<r:%s|%s>" % (bv.t_str(lo), bv.t_str(hi))
+            if h.bad or "\u0001" in text:
+                res = (None, h.bad[0] if h.bad else text[:100])
+                break
+            if text != want:
+                res = (False, "a view of %d bases is written as %r" % (ln, re.sub(r"<r:[^>]*>", "N", text)[:80]))
+                break
+    except (Unsupported, Undecided, Diverge) as e:
+        res = (None, str(e))
+    _FMT_FAITHFUL[key] = res
+    return res
+
+
+# ----------------------------------------------------------------------------------------------------------------------
+# provided (default) methods of Kmer / MerImmut, instantiated for one concrete k-mer type: exact lemmas on the monomorphic
+# MIR.  The per-byte tables base_to_bits / bits_to_base are C16.1's; here they are uninterpreted functions of their argument.
+class _TableHarness(Harness):
+    """base_to_bits(c_i) -> the two fresh bits a[2i], a[2i+1]; bits_to_base / bits_to_ascii -> value tagged with its argument bits"""
+
+    def __init__(self):
+        self.bad = []
+
+    def on_call(self, it, fn, args, dest_ty, term, caller):
+        path = fn.get("path", "")
+        if path in ("base_to_bits", "dna_only_base_to_bits") and len(args) == 1 and isinstance(args[0], Int):
+            bits = list(args[0].getbits())
+            idx = None
+            t0 = bits[0]
+            if t0 is not TOP and len(t0) == 1 and len(next(iter(t0))) == 1:
+                nm, i = bv.var_name(next(iter(next(iter(t0)))))
+                if nm == "c" and i % 8 == 0 and all(bits[b] == var("c", i + b) for b in range(8)):
+                    idx = i // 8
+            if idx is None:
+                self.bad.append("%s applied to %r (not one whole input byte)" % (path, args[0]))
+                return Int(8, False, bits=[TOP] * 8)
+            return Int(8, False, bits=[var("a", 2 * idx), var("a", 2 * idx + 1)] + [ZERO] * 6)
+        if path in ("bits_to_base", "bits_to_ascii") and len(args) == 1:
+            t = _render_tag(args[0])
+            if t is None:
+                self.bad.append("%s applied to %r" % (path, args[0]))
+                t = "r:?"
+            w = 32 if path == "bits_to_base" else 8
+            return Int(w, False, bits=[TOP] * w, tags=frozenset({t}), kind="char" if path == "bits_to_base" else "int")
+        return NotImplemented
+
+
+def kmer_default_lemmas(F, rep, tystr, which=None, rule="L-default"):
+    from .absint import tags_of
+    kt = KType(F, tystr)
+    tag = tystr
+    try:
+        kt.K = kmer_k(F, kt)
+    except (KeyError, Unsupported, Undecided, Diverge) as e:
+        rep.violated(rule, tag, "cannot evaluate K of %s: %s" % (tystr, e), witness={"kind": "anchor-missing"})
+        return
+    K, W = kt.K, kt.W
+    S = in_bits("s", 2 * K, W)
+
+    def want(f):
+        return which is None or f in which
+
+    def lanes_from(src, first=0):
+        """storage bits of the k-mer whose base j is the two bits (src[2(first+j)], src[2(first+j)+1])"""
+        spec = [ZERO] * W
+        for j in range(K):
+            hi, lo = kt.lane_bits(j)
+            spec[hi], spec[lo] = var(src, 2 * (first + j) + 1), var(src, 2 * (first + j))
+        return spec
+
+    def slice_ref(elems):
+        return Ref(Cell(Arr(elems), "bytes"), (), 0, len(elems))
+
+    def ascii_bytes(n):
+        return [Int(8, False, bits=[var("c", 8 * i + b) for b in range(8)]) for i in range(n)]
+
+    if want("from_bytes"):
+        for extra in (0, 2):
+            def f(extra=extra):
+                r, _ = run_inst(F, kt.key("Kmer", "from_bytes"), [slice_ref(byte_seq("a", K + extra))])
+                expect_bits(rep, rule, "%s/from_bytes/len=K+%d" % (tag, extra), kt.storage_of(r), lanes_from("a"),
+                            "from_bytes of %d base bytes: base j of the k-mer is byte j, for j < K (further bytes ignored)" % (K + extra))
+            guarded(rep, rule, "%s/from_bytes/len=K+%d" % (tag, extra), "from_bytes", f)
+
+    if want("from_ascii"):
+        for extra in (0, 2):
+            def f(extra=extra):
+                h = _TableHarness()
+                r, _ = run_inst(F, kt.key("Kmer", "from_ascii"), [slice_ref(ascii_bytes(K + extra))], h)
+                if h.bad:
+                    rep.inconclusive(rule, "%s/from_ascii/len=K+%d" % (tag, extra), "from_ascii: %s" % h.bad[0])
+                    return
+                expect_bits(rep, rule, "%s/from_ascii/len=K+%d" % (tag, extra), kt.storage_of(r), lanes_from("a"),
+                            "from_ascii of %d letters: base j of the k-mer is base_to_bits(letter j), for j < K" % (K + extra))
+            guarded(rep, rule, "%s/from_ascii/len=K+%d" % (tag, extra), "from_ascii", f)
+
+    if want("to_string"):
+        def f():
+            h = _TableHarness()
+            r, _ = run_inst(F, kt.key("Kmer", "to_string"), [Ref(Cell(kt.sym("s"), "self"))], h)
+            rep.evaluations += 1
+            el = r.elems if isinstance(r, VecV) else (r.fields[0].elems if isinstance(r, Adt) and r.fields and isinstance(r.fields[0], VecV) else None)
+            want_t = []
+            for j in range(K):
+                hi, lo = kt.lane_bits(j)
+                want_t.append("r:%s|%s" % (bv.t_str(S[lo]), bv.t_str(S[hi])))
+            got = None if el is None else [([x for x in tags_of(e) if x.startswith("r:")] or [None])[0] if isinstance(e, Int) else None for e in el]
+            if h.bad or got is None or any(g is None for g in got):
+                rep.inconclusive(rule, "%s/to_string" % tag, "to_string: %s" % (h.bad[0] if h.bad else repr(r)))
+            elif got == want_t:
+                rep.holds(rule, "%s/to_string" % tag, "to_string() is the letter of base 0..K in order")
+            else:
+                rep.violated(rule, "%s/to_string" % tag, "to_string() renders %s…; specified the letters of bases 0..%d in order (%s…)" % (got[:3], K, want_t[:3]),
+                             witness={"kind": "render", "got": got[:8], "want": want_t[:8]})
+        guarded(rep, rule, "%s/to_string" % tag, "to_string", f)
+
+    if want("bulk"):
+        for meth, mk in (("kmers_from_bytes", lambda n: byte_seq("a", n)), ("kmers_from_ascii", ascii_bytes)):
+            for n in (max(K - 1, 0), K, K + 2):
+                def f(meth=meth, mk=mk, n=n):
+                    h = _TableHarness()
+                    r, _ = run_inst(F, kt.key("Kmer", meth), [slice_ref(mk(n))], h)
+                    key = "%s/%s/len=%d" % (tag, meth, n)
+                    cnt = max(0, n - K + 1)
+                    if h.bad or not isinstance(r, VecV):
+                        rep.evaluations += 1
+                        rep.inconclusive(rule, key, "%s: %s" % (meth, h.bad[0] if h.bad else repr(r)))
+                        return
+                    if len(r.elems) != cnt:
+                        rep.evaluations += 1
+                        rep.violated(rule, key, "%s of a sequence of %d bases (K = %d) yields %d k-mers; specified max(0, n-K+1) = %d" % (meth, n, K, len(r.elems), cnt),
+                                     witness={"kind": "count", "got": len(r.elems), "want": cnt})
+                        return
+                    if cnt == 0:
+                        rep.evaluations += 1
+                        rep.holds(rule, key, "%s of %d bases yields no k-mer" % (meth, n))
+                        return
+                    ok = True
+                    for i, e in enumerate(r.elems):
+                        ok = expect_bits(rep, rule, key if i == 0 else key + "/item=%d" % i, kt.storage_of(e), lanes_from("a", i),
+                                         "%s of %d bases: item %d is the k-mer of bases %d..%d" % (meth, n, i, i, i + K)) and ok
+                guarded(rep, rule, "%s/%s/len=%d" % (tag, meth, n), meth, f)
+
+    if want("immut"):
+        for pos in range(K):
+            def f(pos=pos):
+                cell = Cell(kt.sym("s"), "self")
+                r, _ = run_inst(F, kt.key("MerImmut", "set"), [Ref(cell), usize(pos), base_arg()])
+                hi, lo = kt.lane_bits(pos)
+                spec = list(S)
+                spec[lo], spec[hi] = var("v", 0), var("v", 1)
+                ok = expect_bits(rep, rule, "%s/set/pos=%d" % (tag, pos), kt.storage_of(r), spec, "set(%d, v) returns the k-mer with exactly base %d replaced" % (pos, pos))
+                if ok and list(kt.storage_of(cell.v).getbits()) != list(S):
+                    rep.violated(rule, "%s/set/pos=%d/self" % (tag, pos), "set(%d, v) modifies its receiver" % pos)
+            guarded(rep, rule, "%s/set/pos=%d" % (tag, pos), "set", f)
+        V = in_bits("val", 64, 64)
+        runs = sorted({(pos, n) for pos in range(K) for n in (1, 2, 31, 32, K - pos) if 1 <= n <= min(32, K - pos)})
+        for pos, n in runs:
+            def f(pos=pos, n=n):
+                cell = Cell(kt.sym("s"), "self")
+                r, _ = run_inst(F, kt.key("MerImmut", "set_slice"), [Ref(cell), usize(pos), usize(n), Int(64, False, bits=V)])
+                spec = list(S)
+                for t in range(n):
+                    hi, lo = kt.lane_bits(pos + t)
+                    spec[hi], spec[lo] = V[63 - 2 * t], V[62 - 2 * t]
+                expect_bits(rep, rule, "%s/set_slice/pos=%d/n=%d" % (tag, pos, n), kt.storage_of(r), spec,
+                            "set_slice(%d, %d, value) returns the k-mer with exactly bases %d..%d taken from the top lanes of value" % (pos, n, pos, pos + n))
+            guarded(rep, rule, "%s/set_slice/pos=%d/n=%d" % (tag, pos, n), "set_slice", f)
+
+
+def byte_container_lemmas(F, rep, rule="L-bytes", ktypes=None):
+    """DnaBytes / DnaSlice: get_kmer, first_kmer, last_kmer on every k-mer type = the K base bytes at the position (exact, monomorphic)"""
+    kts = ktypes if ktypes is not None else [k["ty"] for k in F.kmer_types]
+    for kty in kts:
+        try:
+            kt = KType(F, kty)
+            kt.K = kmer_k(F, kt)
+        except Exception as e:
+            rep.inconclusive(rule, kty, "cannot set up %s: %s" % (kty, e))
+            continue
+        K, W = kt.K, kt.W
+        n = K + 5
+
+        def lanes(first):
+            spec = [ZERO] * W
+            for j in range(K):
+                hi, lo = kt.lane_bits(j)
+                spec[hi], spec[lo] = var("a", 2 * (first + j) + 1), var("a", 2 * (first + j))
+            return spec
+        for cont, mk in (("DnaBytes", lambda: Adt("DnaBytes", 0, [VecV(byte_seq("a", n))])),
+                         ("DnaSlice<'_>", lambda: Adt("DnaSlice", 0, [Ref(Cell(Arr(byte_seq("a", n)), "bytes"), (), 0, n)]))):
+            for meth, pos in (("get_kmer", 0), ("get_kmer", 3), ("get_kmer", 5), ("first_kmer", 0), ("last_kmer", 5)):
+                key = "%s/%s/%s%s" % (kty, cont.split("<")[0], meth, ("/pos=%d" % pos) if meth == "get_kmer" else "")
+
+                def f(cont=cont, mk=mk, meth=meth, pos=pos, key=key):
+                    args = [Ref(Cell(mk(), "self"))] + ([usize(pos)] if meth == "get_kmer" else [])
+                    r, _ = run_inst(F, "<%s as Vmer>::%s::<%s>" % (cont, meth, kty), args)
+                    expect_bits(rep, rule, key, kt.storage_of(r), lanes(pos), "%s::%s::<%s>%s = the K base bytes at %d..%d" % (
+                        cont.split("<")[0], meth, kty, "(%d)" % pos if meth == "get_kmer" else "()", pos, pos + K))
+                guarded(rep, rule, key, meth, f)
